@@ -392,7 +392,7 @@ class PathRun:
                     return
                 memo.add(e.get_id())
                 if z3.is_app(e):
-                    if e.decl().kind() == z3.Z3_OP_SELECT and z3.is_app(e.arg(0)) and e.arg(0).decl().name().startswith('DICT_'):
+                    if e.decl().kind() == z3.Z3_OP_SELECT and z3.is_app(e.arg(0)) and e.arg(0).decl().name().startswith(('DICT_', 'SETOF')):
                         k = e.arg(1)
                         if k.get_id() not in kseen and _is_ground_term(k, gcache) and len(keys) < 6:
                             kseen.add(k.get_id())
@@ -569,9 +569,33 @@ class PathRun:
         units = [z3.Unit(self.to_val(e)) for e in v.elems]
         return units[0] if len(units) == 1 else z3.Concat(*units)
 
+    def setof(self, seqt):
+        """the set of the elements of a sequence term, as a membership array SETOF(seq) with its two defining axioms (every
+        element is a member; a member occurs at the witness position W(seq, v)).  One function symbol for all sequences: the
+        same sequence in code and in a specification gives the same set term."""
+        F = uf('SETOF', SeqV, z3.ArraySort(Val, B))
+        W = uf('SETOF_w', SeqV, Val, I)
+        a = F(seqt)
+        key = ('setof', seqt.get_id())
+        if key not in self.gcache:
+            self.gcache[key] = seqt
+            j = z3.Int(self.fresh('j'))
+            v = z3.Const(self.fresh('k'), Val)
+            self.pc.append(z3.ForAll([j], z3.Implies(z3.And(j >= 0, j < z3.Length(seqt)), z3.Select(a, seqt[j]))))
+            self.pc.append(z3.ForAll([v], z3.Implies(z3.Select(a, v), z3.And(W(seqt, v) >= 0, W(seqt, v) < z3.Length(seqt), seqt[W(seqt, v)] == v))))
+        return a
+
     def as_seq(self, v):
         """SSeq view of a sequence-like value"""
         if isinstance(v, SSeq): return v
+        if isinstance(v, SSet):
+            if v.src is not None:
+                return v.src
+            # iteration order of a set is unspecified: some sequence holding exactly its members
+            t = z3.Const(self.fresh('setlist'), SeqV)
+            j = z3.Int(self.fresh('j'))
+            self.pc.append(z3.ForAll([j], z3.Implies(z3.And(j >= 0, j < z3.Length(t)), z3.Select(v.t, t[j]))))
+            return SSeq(t, 'list')
         if isinstance(v, STuple): return SSeq(self.seq_of_tuple(v), v.kind)
         if isinstance(v, SDyn):
             return SSeq(items(Val.h(v.t)), 'list')
